@@ -104,6 +104,24 @@ impl Prop for P05 {
             2 => *rng.pick(&[b':' as i64, b'a' as i64, 32, 9, 92, 39]),
             _ => -1,
         };
+        if idx % 199 == 11 {
+            // one item longer than any argument exec accepts: where the input is cut is still the delimiter's business
+            // alone (that such an argument cannot be passed on is found out later, by the limiters - C04, C06)
+            let d = *rng.pick(&[0u8, 10, b':']);
+            let mut bytes: Vec<u8> = vec![b'a'; 1 + rng.below(5)];
+            bytes.push(d);
+            bytes.extend(std::iter::repeat(b'b').take(131072 + rng.below(3000)));
+            bytes.push(d);
+            bytes.extend(b"ccc");
+            let mut lens = vec![];
+            let mut left = bytes.len();
+            while left > 0 {
+                let l = (*rng.pick(&[4096usize, 8192, 65536, 100000, 4095])).min(left);
+                lens.push(l);
+                left -= l;
+            }
+            return json!({"bytes": bytes_to_json(&bytes), "delim": d as i64, "chunks": lens});
+        }
         let big = idx % 23 == 7; // exercise the 4096-byte buffer edge
         let len = if big {
             (4096 + rng.range(-3, 600)) as usize
